@@ -77,7 +77,10 @@ def render_term(t, opt):
         idx = '[0]'
     if idx and opt.get('idx_inner'):
         idx = '[ ' + idx[1:-1].strip() + ' ]'
-    return base + opt.get('pre_bracket', '') + idx
+    text = base + opt.get('pre_bracket', '') + idx
+    if opt.get('paren'):
+        text = opt['paren'][0] + text + opt['paren'][1]  # redundant parentheses round one operand
+    return text
 
 
 def render_eq(eq, lay=None):
@@ -173,6 +176,18 @@ def variants_of_eq(eq):
     lay = Layout()
     lay.wrap = 'rhs'
     yield ('T6-paren-only', 0, lay)
+    # T6: redundant parentheses round a single right-hand-side operand (with and without blanks inside, and glued to what precedes it)
+    for i, (kind, payload) in enumerate(atoms):
+        if kind == 'term' and i >= 2:
+            for par in (('(', ')'), ('( ', ' )')):
+                lay = Layout()
+                lay.term[i] = {'paren': par}
+                yield ('T6-paren-operand', i, lay)
+                if gaps[i - 1] == ' ' and atoms[i - 1][0] == 'tok' and atoms[i - 1][1] != '=':
+                    lay = Layout()
+                    lay.term[i] = {'paren': par}
+                    lay.gaps[i - 1] = ''
+                    yield ('T6-paren-operand-glued', i, lay)
     lay = Layout()
     lay.comment[0] = 'a comment = with (brackets'
     yield ('T1-trailing-comment', 0, lay)
@@ -408,33 +423,78 @@ def run_program(case, p=None):
     return out
 
 
-FENCE_BASES = [
-    '```\nself._Y[t] = 1.0\n```\nZ = Y + X[-1]',
-    'Z = Y + X[-1]\n```\nif self._Z[t] > 0:\n    self._Y[t] = self._Z[t]\n```',
-    '`self._Y[t] = 2.0`\nZ = Y',
+FENCE_STATEMENTS = [
+    ['```\nself._Y[t] = 1.0\n```', 'Z = Y + X[-1]'],
+    ['Z = Y + X[-1]', '```\nif self._Z[t] > 0:\n    self._Y[t] = self._Z[t]\n```'],
+    ['`self._Y[t] = 2.0`', 'Z = Y'],
+    # the same verbatim statement twice: it runs twice
+    ['`self._K[t] = self._K[t] * 2`', 'Z = K', '`self._K[t] = self._K[t] * 2`'],
+    ['```\nself._K[t] += 1\n```', '```\nself._K[t] += 1\n```', 'Z = K + X'],
+    # nested bodies, several levels of indentation
+    ['```\nfor i in range(2):\n    if self._Z[t] > i:\n        self._Y[t] = i\n    self._W[t] = i\nself._V[t] = 1\n```', 'Z = Y + W[-1] + V[1]'],
+    ['`self._Y[t] = (1 +\n 2)`', 'Z = Y'],
 ]
+FENCE_BASES = ['\n'.join(st) for st in FENCE_STATEMENTS]
 
 
 def fence_variants(base):
     lines = base.split('\n')
+    inside = False
     for i, line in enumerate(lines):
-        if line.startswith('```') or (line.startswith('`') and line.endswith('`')):
+        fence_line = line.startswith('```')
+        inline = line.startswith('`') and line.endswith('`') and not fence_line
+        if fence_line or inline:
             yield 'T1-comment-on-fence-line', '\n'.join(lines[:i] + [line + '  # comment (with a bracket'] + lines[i + 1:])
-        if not line.startswith(('`', ' ', 'self', 'if')):
+        elif inside:
+            # a comment or blanks after a line of verbatim code: the code (and its indentation) stays what it was
+            yield 'T1-comment-inside-fence', '\n'.join(lines[:i] + [line + '  # note'] + lines[i + 1:])
+        elif not line.startswith((' ', '`')) and '`' not in line:
             yield 'T1-comment-after-equation', '\n'.join(lines[:i] + [line + '  # note'] + lines[i + 1:])
+        for blank in (' ', '   ', '\t'):
+            yield 'T3-trailing-blank', '\n'.join(lines[:i] + [line + blank] + lines[i + 1:])
+        if fence_line:
+            inside = not inside
+    yield 'T3-trailing-blank-everywhere', '\n'.join(line + '  ' for line in lines)
     yield 'T2-blank-lines', '\n\n' + base.replace('```\nZ', '```\n\nZ').replace('\n```\nif', '\n\n```\nif') + '\n\n'
     yield 'T1-comment-lines', '# leading comment\n' + base + '\n# trailing comment'
+    yield 'T2-trailing-newlines', base + '\n \n'
 
 
 @robust()
 def run_fence(case):
     base = FENCE_BASES[case['i']]
+    statements = FENCE_STATEMENTS[case['i']]
     syms, err = parse(base)
     if err:
         return [('fence:base-rejected:%s' % err, 'accepted', err, 'base script with a verbatim block rejected: %r' % base)]
     out = []
     for tag, script in fence_variants(base):
         out += compare(syms, script, 'fence:' + tag)
+    # every verbatim statement of the script is a verbatim symbol of the parse, in order, with its code unchanged
+    want = [st.strip('`\n') for st in statements if st.startswith('`')]
+    got = [x.code for x in syms if x.type.name == 'VERBATIM']
+    if want != got:
+        out.append(('fence:verbatim-blocks', want, got, 'the verbatim statements of the script are not the verbatim symbols of its parse'))
+    # merge law: the script parses to the merge of its statements parsed one at a time
+    parts = []
+    for st in statements:
+        r, err = parse(st)
+        if err:
+            out.append(('fence:statement-rejected:%s' % err, 'accepted', err, 'a statement of an accepted script is rejected on its own: %r' % st))
+            return out
+        parts.append(r)
+    if ref_merge(parts) != [tuple(x) for x in syms]:
+        out.append(('fence:merge', ref_merge(parts), [tuple(x) for x in syms], 'the script does not parse to the merge of its statements'))
+    # reordering statements only reorders symbols
+    if len(statements) <= 3:
+        for perm in itertools.permutations(range(len(statements))):
+            r, err = parse('\n'.join(statements[j] for j in perm))
+            if err:
+                out.append(('fence:T7-rejected:%s' % err, 'accepted', err, 'a reordering of the statements is rejected'))
+                break
+            if sorted(sig(r), key=repr) != sorted(sig(syms), key=repr) or sorted(x.code for x in r if x.code) != sorted(x.code for x in syms if x.code):
+                out.append(('fence:T7-permutation', sig(syms), sig(r), 'reordering statements changes more than the order of the symbols'))
+                break
     return out
 
 
